@@ -71,6 +71,10 @@ impl From<InMessageMeta> for OutMessageMeta {
 pub enum SwarmControlMessage {
     ConnectionClosed {
         ip_version: IpVersion,
+        /// Socket worker and connection id of the closed connection. Only peer
+        /// entries created through this connection are to be removed.
+        out_message_consumer_id: ConsumerId,
+        connection_id: ConnectionId,
         announced_info_hashes: Vec<(InfoHash, PeerId)>,
     },
 }
